@@ -14,6 +14,69 @@ EVENTS_OF = {"C11": ("tok.init", "tok.info", "h.start", "tok.acq", "end"),   # t
              "C09": ("sched.dep", "tok.rel", "tok.evt", "tok.init", "tok.dep.changed", "tok.watch", "tok.file.delete", "h.quiescent", "tok.init.error", "tok.acq.count", "h.start")}
 
 
+def lazy_table(rep, prop):
+    """XpmLazyTable: TLC on both designs + the counterexample's interleaving replayed on the real Process.handler (the
+    first thread is held inside the enumeration of the entry points until the second one has asked for its handler)"""
+    import threading
+
+    res = tlc.tlc("XpmLazyTable.tla", "MC_LazyTable.cfg", workers=1, timeout=300)
+    rep.add_tlc("MC_LazyTable", res, "2 threads x 2 handlers: a registered handler is always found")
+    if res.violation:
+        rep.violation(f"{prop}/model/lazy-table/{res.violation[1]}", f"TLC: {res.violation} in MC_LazyTable", {"tlc_tail": res.out[-1500:]})
+    elif res.error:
+        rep.machinery_failure(f"TLC failed on MC_LazyTable: {res.error}")
+    res = tlc.tlc("XpmLazyTable.tla", "MC_LazyTable_F24.cfg", workers=1, timeout=300)
+    rep.add_tlc("MC_LazyTable_F24", res, "the table visible while it is being filled: must violate AlwaysFound")
+    if not res.violation and not res.error:
+        rep.machinery_failure("XpmLazyTable does not show the race of F24")
+    import pkg_resources
+
+    from experimaestro import connectors
+
+    orig, saved = pkg_resources.iter_entry_points, connectors.Process.HANDLERS
+    inside, go = threading.Event(), threading.Event()
+    first = []
+
+    def held(group=None, name=None):
+        eps = list(orig(group=group, name=name) if name else orig(group=group))
+        if not first:
+            first.append(threading.get_ident())
+            inside.set()
+            go.wait(10)
+        return iter(eps)
+
+    out = {}
+
+    def ask(i):
+        try:
+            out[i] = connectors.Process.handler("local")
+        except Exception as e:  # noqa
+            out[i] = e
+
+    try:
+        connectors.Process.HANDLERS = None
+        pkg_resources.iter_entry_points = held
+        t1 = threading.Thread(target=ask, args=(1,))
+        t1.start()
+        if not inside.wait(10):
+            rep.machinery_failure("lazy table: the first thread never reached the enumeration of the entry points")
+        ask(2)
+        go.set()
+        t1.join(10)
+    finally:
+        pkg_resources.iter_entry_points = orig
+        connectors.Process.HANDLERS = saved
+    rep.cov["evaluations"] += 1
+    if out.get(1) is None or out.get(2) is None or isinstance(out.get(1), Exception) or isinstance(out.get(2), Exception):
+        rep.violation(f"{prop}/lazy-table/handler-missing",
+                      f"two threads use the table of process handlers for the first time at once (the reclaim threads started by the first recount of a "
+                      f"token directory holding two token files): the handler of 'local' is {out.get(1)!r} for the thread that builds the table and "
+                      f"{out.get(2)!r} for the other one -- Process.fromDefinition then fails and the token file it watched is never removed",
+                      {"token_scenario": "two_killed_orphans"})
+    else:
+        rep.cov["traces_validated_against_impl"] += 1
+
+
 def run(rep, prop, tier, replay_name=None, only=None):
     rep.assumptions.append("E2-token: mini scheduler processes around the real CounterToken (real ipc lock, watchdog observer, reclaim "
                            "threads); jobs are stand-ins holding the job lock; the order of the shared O_APPEND log is the order of events")
@@ -38,6 +101,8 @@ def run(rep, prop, tier, replay_name=None, only=None):
         rep.add_tlc("MC_TokenFS_resubmit_F23", res, "the reclaim as it was (no job lock): must violate RunningHoldFile")
         if not res.violation and not res.error:
             rep.machinery_failure("MC_TokenFS does not show the stale reclaim (F23)")
+    if replay_name is None and not only and prop == "C09":
+        lazy_table(rep, prop)
     if replay_name is None and not only:
         if prop in ("C06", "C09"):
             # the two steps of a submission (register with the token, first check): the order of the code holds, the other loses a release
